@@ -1,6 +1,6 @@
 SPECIFICATION Spec
 CONSTANTS
-  Cfgs <- CfgsA
+  Cfgs <- CfgsD
   Classes <- ClassesCore
   RefuseSets <- RefuseNone
   MaxRetry = 1
